@@ -93,12 +93,13 @@ def parse_url(url: str) -> ParsedURL:
             raise ValueError(f"Unsupported IP literal (not an IPv6 address): {url}")
 
     # Reject userinfo (per Gemini spec: userinfo portions are forbidden)
-    # (":@host" has the user-info ":" although both parts of it are empty)
-    if parsed.username or parsed.password or parsed.netloc.startswith(":@"):
+    # ("@host" and ":@host" have a user-info although there is nothing in it)
+    if "@" in parsed.netloc:
         raise ValueError(f"URL must not contain userinfo (user:password): {url}")
 
-    # Reject fragments (per Gemini spec: fragments cannot be included)
-    if parsed.fragment:
+    # Reject fragments (per Gemini spec: fragments cannot be included);
+    # a "#" with nothing after it is a fragment too
+    if parsed.fragment or "#" in url:
         raise ValueError(f"URL must not contain fragment: {url}")
 
     # Get port (default to 1965)
@@ -119,6 +120,11 @@ def parse_url(url: str) -> ParsedURL:
             parsed.fragment,
         )
     )
+
+    # An empty query is still a query: "gemini://h/a?" (the answer to a prompt, with
+    # empty input) is not "gemini://h/a" (RFC 3986 6.2.3); urlunparse() drops the "?"
+    if not parsed.query and "?" in url:
+        normalized += "?"
 
     return ParsedURL(
         scheme="gemini",
